@@ -154,7 +154,7 @@ var inventory = []string{
 	"xyz.Distances", "bigxy.Orientation", "bigxy.Intersection", "transform.UniqueCoords",
 	"wkb.Marshal", "ewkb.Marshal", "wkbhex.Encode", "ewkbhex.Encode", "wkt.Marshal", "wkt.MarshalDigits", "geojson.Marshal", "geojson.MarshalBBox", "geojson.Feature", "igc.Encode", "kml.Encode",
 	"wkb.Unmarshal", "ewkb.Unmarshal", "ewkb.Scan", "wkt.Unmarshal", "geojson.Unmarshal", "igc.Read",
-	"xy.Misc", "xy.CentroidsWithExtras", "wkb.WriteRead", "hex.Decode", "geojson.FeatureCollection", "decode.CrossFormat", "decode.CrossFormat",
+	"xy.Misc", "xy.CentroidsWithExtras", "wkb.WriteRead", "hex.Decode", "geojson.FeatureCollection", "decode.CrossFormat", "decode.CrossFormat", "decode.Truncated", "decode.Truncated", "exact.Burst", "exact.Burst",
 	"geojson.MarshalSharedOpts", "geojson.MarshalSharedOpts", "wkt.MarshalSharedOpts", "wkb.UnmarshalSharedOpts", "geojson.MarshalSharedSlice", "geojson.MarshalSharedSlice",
 }
 
@@ -452,6 +452,32 @@ func execInner(pool []*item, c Call, geomRes func(geom.T, error) string, bytesRe
 			return fmt.Sprint(xy.OrientationIndex(p0, p1, q0))
 		case "bigxy.Orientation":
 			return fmt.Sprint(bigxy.OrientationIndex(p0, p1, q0))
+		case "exact.Burst":
+			// a few hundred evaluations that the floating-point filter cannot decide (points on
+			// and a few ulps beside the line p0-p1, a point on and beside the edges of a
+			// triangle): goroutines of the concurrent phase spend their time inside the
+			// extended-precision path at the same moment
+			var sb strings.Builder
+			dx, dy := p1[0]-p0[0], p1[1]-p0[1]
+			if dx == 0 && dy == 0 {
+				dx = 1
+			}
+			tri := []float64{p0[0], p0[1], p0[0] + dx, p0[1] + dy, p0[0] - dy, p0[1] + dx, p0[0], p0[1]}
+			for i := 0; i < 240; i++ {
+				tt := float64(i%17) / 16
+				x, y := p0[0]+tt*dx, p0[1]+tt*dy
+				switch i % 5 {
+				case 1:
+					x = math.Nextafter(x, math.Inf(1))
+				case 2:
+					y = math.Nextafter(y, math.Inf(-1))
+				case 3:
+					x, y = math.Nextafter(x, math.Inf(-1)), math.Nextafter(y, math.Inf(1))
+				}
+				pt := geom.Coord{x, y}
+				sb.WriteString(fmt.Sprint(int(bigxy.OrientationIndex(p0, geom.Coord{p0[0] + dx, p0[1] + dy}, pt)), int(xy.LocatePointInRing(geom.XY, pt, tri)), xy.IsOnLine(geom.XY, pt, tri[:4]), ";"))
+			}
+			return sb.String()
 		case "xy.Angles":
 			return fl(xy.Angle(p0, p1)) + fl(xy.AngleBetween(p0, p1, q0)) + fl(xy.AngleBetweenOriented(p0, p1, q0)) + fl(xy.InteriorAngle(p0, p1, q0)) + fmt.Sprint(xy.IsAcute(p0, p1, q0), xy.IsObtuse(p0, p1, q0)) + fl(xy.AngleFromOrigin(p0)) + fl(xy.Normalize(xy.Angle(q0, q1))) + fl(xy.NormalizePositive(xy.Angle(q0, q1))) + fl(xy.Diff(xy.Angle(p0, p1), xy.Angle(q0, q1))) + fmt.Sprint(xy.AngleOrientation(xy.Angle(p0, p1), xy.Angle(q0, q1)))
 		case "bigxy.Intersection":
@@ -731,6 +757,37 @@ func execInner(pool []*item, c Call, geomRes func(geom.T, error) string, bytesRe
 			return "err:" + err.Error()
 		}
 		return canonGeom(p.Polygon, nil)
+	case "decode.Truncated":
+		// decodes that fail half-way (the input cut inside a count, a coordinate array, a
+		// token): whatever a failing call leaves behind must not reach the calls around it
+		var sb strings.Builder
+		for k, in := range [][]byte{a.ewkb, a.wkb, a.json, a.wktb, a.igc} {
+			if len(in) < 2 {
+				continue
+			}
+			cut := in[:1+(len(in)-2)*(1+(c.B+k)%7)/8]
+			switch k {
+			case 0:
+				sb.WriteString(canonGeom(ewkb.Unmarshal(cut)))
+				sb.WriteString(canonGeom(ewkb.Read(bytes.NewReader(cut))))
+			case 1:
+				sb.WriteString(canonGeom(wkb.Unmarshal(cut, sharedWKBNaN)))
+				sb.WriteString(canonGeom(wkb.Read(bytes.NewReader(cut), sharedWKBNaN)))
+			case 2:
+				var g geom.T
+				err := geojson.Unmarshal(cut, &g)
+				sb.WriteString(canonGeom(g, err))
+			case 3:
+				sb.WriteString(canonGeom(wkt.Unmarshal(string(cut))))
+			case 4:
+				t, err := igc.Read(bytes.NewReader(cut))
+				if t != nil && t.LineString != nil {
+					sb.WriteString(canonGeom(t.LineString, nil))
+				}
+				sb.WriteString(fmt.Sprint(err))
+			}
+		}
+		return sb.String()
 	case "decode.CrossFormat":
 		// every decoder is handed every byte slice of the item, also those of another
 		// format (text where binary is expected and the other way round): whatever it
